@@ -397,6 +397,11 @@ def build(node):
         return Union[tuple(members)]
     if k == 'tupf':
         members = tuple(build(m) for m in node[1])
+        if node[2] in ('u', 'v') and len(members) >= 2:
+            # PEP 646: the same fixed-length tuple spelled with an unpacked fixed tuple in front ('u') or at the end ('v')
+            if node[2] == 'u':
+                return tuple[(typing.Unpack[tuple[members[:-1]]], members[-1])]
+            return tuple[(members[0], typing.Unpack[tuple[members[1:]]])]
         fac = typing.Tuple if node[2] == 'T' else tuple
         return fac[members] if members else fac[()]
     if k == 'tupv':
@@ -830,7 +835,7 @@ def hint_nodes(max_depth=3, hashable=False):
     opts = [
         st.tuples(st.lists(sub, min_size=1, max_size=3), st.sampled_from(['U', 'P', 'O'])).map(
             lambda t: ['union', t[0], t[1]]),
-        st.tuples(st.lists(sub, min_size=0, max_size=3), st.sampled_from(['T', 't'])).map(
+        st.tuples(st.lists(sub, min_size=0, max_size=3), st.sampled_from(['T', 't', 't', 'u', 'v'])).map(
             lambda t: ['tupf', t[0], t[1]]),
         st.tuples(sub, st.sampled_from(['T', 't'])).map(lambda t: ['tupv', t[0], t[1]]),
         st.tuples(sub, _validator_lists).map(lambda t: ['ann', t[0], t[1]]),
